@@ -158,6 +158,15 @@ def gen_jobs(tier, seed, env_text):
     add("depth-3 types", [{"kind": "type", "t": t} for t in (rng.sample(wrap3, 800) if q else wrap3)])
     add("TypedDict types (exhaustive)", [{"kind": "type", "t": t} for t in tds])
     add("rewritten forms: Tuple[T, ...]", [{"kind": "type", "t": T("tuplevar", "", [t])} for t in t1[:40]])
+    look = [T("cls", "mtfx.lookalikes." + n) for n in ("TimeoutError", "Warning", "frozenset", "NoneType", "List", "Holder.int")]
+    STRT, INTT = T("cls", "str"), T("cls", "int")
+    shapes_of = [lambda c: c, lambda c: T("typeof", "", [c]), lambda c: T("list", "", [c]), lambda c: T("dict", "", [STRT, c]),
+                 lambda c: T("union", "", [], [c, INTT]), lambda c: T("td", "", [], [T("req", "x", [c])]),
+                 lambda c: T("tuple", "", [c, T("cls", "NoneType")])]
+    add("application classes named like builtins / typing names, bare and inside every shape",
+        [{"kind": "type", "t": sh(c)} for c in look for sh in shapes_of]
+        + [{"kind": "type", "t": T("union", "", [], [look[0], T("cls", "TimeoutError")])},
+           {"kind": "type", "t": T("union", "", [], [look[3], T("cls", "NoneType")])}])
     ks = [0, 1, 2, 3, 10]
     add("inferred from singles full1+wide+tiny2, all k",
         [{"kind": "vals", "vals": [v], "k": k} for v in full1 + wide + tiny2 for k in (ks if not q else [0, 3])])
@@ -174,6 +183,22 @@ def gen_jobs(tier, seed, env_text):
         [{"kind": "call", "func": f, "types": [t, rng.choice(tpool)], "ret": r, "yld": y}
          for f in fnames for t in tpool for r in ("absent", "none", "type") for y in ("absent", "none", "type")])
     return jobs, plan
+
+
+def _json_diff_keys(a, b, key="", acc=None):
+    """Names of the JSON object keys under which two documents differ ('<shape>' when their structure differs)."""
+    acc = set() if acc is None else acc
+    if isinstance(a, dict) and isinstance(b, dict) and set(a) == set(b):
+        for k in a:
+            _json_diff_keys(a[k], b[k], k, acc)
+    elif isinstance(a, list) and isinstance(b, list) and len(a) == len(b):
+        for x, y in zip(a, b):
+            _json_diff_keys(x, y, key, acc)
+    elif type(a) is not type(b) or isinstance(a, (dict, list)):
+        acc.add("<shape>")
+    elif a != b:
+        acc.add(key)
+    return acc
 
 
 def signature(rec, clause):
@@ -221,8 +246,11 @@ def main(pid, tier, seed, replay=None):
             if clause == "StructureOnly":  # one violation per differing construction
                 for lab, e in zip(rec["labels"], rec["encs"]):
                     if e != rec["encs"][0]:
-                        run.violation({"clause": clause, "variant": lab, "has_typed_dict": '"k": "td"' in json.dumps(rec["ty"]),
-                                       "has_union": '"k": "union"' in json.dumps(rec["ty"])}, job_by_tid[v["tid"]])
+                        vio = {"clause": clause, "variant": lab, "has_typed_dict": '"k": "td"' in json.dumps(rec["ty"]),
+                               "has_union": '"k": "union"' in json.dumps(rec["ty"])}
+                        if lab == "decoded":     # the recorded finding is about the module field only
+                            vio["differs_in"] = sorted(_json_diff_keys(json.loads(rec["encs"][0]), json.loads(e)))
+                        run.violation(vio, job_by_tid[v["tid"]])
             else:
                 run.violation(signature(rec, clause), job_by_tid[v["tid"]])
     nt = {canon(r["ty"]) for r in records if r["ev"] == "T" and r["ty"]["k"] not in ("cls", "any")}
